@@ -288,4 +288,53 @@ theorem unfold_fold_dat (S : FS) (i : Idx) (hi : i ∈ S.box) :
   have e : foldCoef (nTotal S.shape) (nTotal S.shape - i.sum) = 1 - foldCoef (nTotal S.shape) i.sum := by linarith
   rw [e]; ring
 
+
+
+theorem map_getD_range (l : List Nat) : (List.range l.length).map (fun a => l.getD a 0) = l := by
+  apply List.ext_getElem (by simp)
+  intro n h1 h2
+  simp [List.getD_eq_getElem?_getD, List.getElem?_eq_getElem h2]
+
+/-- a permutation of the axes preserves the total allele count of an entry -/
+theorem permIdx_sum (axes : List Nat) (i : Idx) (hp : axes.Perm (List.range i.length)) : (permIdx 0 axes i).sum = i.sum := by
+  unfold permIdx
+  rw [(hp.map _).sum_eq, map_getD_range]
+
+theorem getD_mirror {sh i : List Nat} (h : List.Forall₂ (· < ·) i sh) (a : Nat) :
+    (mirror sh i).getD a 0 = sh.getD a 0 - 1 - i.getD a 0 := by
+  induction h generalizing a with
+  | nil => simp [mirror]
+  | cons hab _ ih =>
+    cases a with
+    | zero => simp [mirror]
+    | succ a => simpa [mirror] using ih a
+
+theorem permIdx_mirror (axes : List Nat) (sh : List Nat) (i : Idx) (hi : i ∈ boxIdx sh) :
+    mirror (permIdx 0 axes sh) (permIdx 0 axes i) = permIdx 0 axes (mirror sh i) := by
+  have h := (mem_boxIdx _ _).1 hi
+  unfold permIdx
+  show List.zipWith (fun s c => s - 1 - c) (axes.map _) (axes.map _) = _
+  rw [List.zipWith_map_left, List.zipWith_map_right, List.zipWith_self]
+  apply List.map_congr_left
+  intro a _
+  exact (getD_mirror h a).symm
+
+theorem nTotal_permIdx (axes : List Nat) (sh : List Nat) (hp : axes.Perm (List.range sh.length)) :
+    nTotal (permIdx 0 axes sh) = nTotal sh := by
+  unfold nTotal
+  have : (permIdx 0 axes sh).map (· - 1) = permIdx 0 axes (sh.map (· - 1)) := by
+    unfold permIdx; rw [List.map_map]
+    apply List.map_congr_left; intro a _
+    exact (getD_map_pred sh a).symm
+  rw [this, permIdx_sum axes _ (by simpa using hp)]
+
+/-- reordering populations commutes with folding -/
+theorem fold_reorder_comm (axes : List Nat) (sh : List Nat) (hp : axes.Perm (List.range sh.length)) (x : Idx → ℚ)
+    (j : Idx) (hj : j ∈ boxIdx (permIdx 0 axes sh)) :
+    foldDat (permIdx 0 axes sh) (pushL (boxIdx sh) (permIdx 0 axes) x) j = pushL (boxIdx sh) (permIdx 0 axes) (foldDat sh x) j := by
+  have hval : ∀ a ∈ axes, a < sh.length := fun a ha => by simpa using hp.mem_iff.1 ha
+  exact fold_push_comm sh _ (permIdx 0 axes) x (fun i hi => permIdx_mem_box axes sh hval i hi)
+    (fun i hi => permIdx_sum axes i (by rw [mem_box_length sh i hi]; exact hp))
+    (nTotal_permIdx axes sh hp).symm (fun i hi => (permIdx_mirror axes sh i hi).symm) j hj
+
 end DadiVerif.PopOps
